@@ -39,6 +39,18 @@ CHECKS = {
   "bounded-exhaustive enumeration of forged decisions through the simulator host interface and of certchain committees against the node rule",
   "Every forged decision shape and every signer subset of 3/4-member tables is reported through the simulator's own host interface by a custom adversary; sim.Run must fail exactly when the decision is not a valid proof, and when an honest decision record disagrees. certchain committees of every instance of generated chains are compared with the node's rule and the node's real consensus-inputs component over the same EC and certificates.",
   "sim default latency model; fake signing; model EC backend", "DESIGN §3 C19"),
+ "C09": (True, "certstoremc", "model_checking",
+  "explicit-state BFS over operation histories of the real certstore.Store against an in-memory reference model",
+  "Breadth-first search over all operation sequences (create/open variants, 13 kinds of put incl. every delta shape and every rejection class, subscribe/receive/unsubscribe) to depth 6 (thorough 8), deduplicated on reference+subscription state; after every step every observable (Get, GetRange, Latest, GetPowerTable for first-1..latest+2, subscriber channels) is compared with a boring reference store; checkpoints are crossed densely (frequency 3) and once at the real 1440 boundary.",
+  "sequential histories only (the concurrent-readers/writers clause is not decided by this check); in-memory datastore; checkpoint frequency lowered via injected accessor", "DESIGN §3 C09"),
+ "C10": (True, "certstoremc", "fault_enumeration",
+  "exhaustive crash-point enumeration over the recorded datastore write log of every operation of every history",
+  "For every history and every final operation (create, put incl. checkpoint puts, wipe) every prefix of the operation's datastore Put/Delete log is materialised into a fresh datastore and reopened with each open variant; the observable state must equal the reference before or after the operation, the operation must be repeatable, the recovered store must keep working across further puts and another restart, and an interrupted wipe must be completed leaving no key behind.",
+  "crash = stop between two datastore writes, single writes atomic; in-memory datastore", "DESIGN §3 C10"),
+ "C17": (True, "certstoremc", "exploration",
+  "bounded-exhaustive enumeration of stores, export end points and snapshot corruptions (every truncation, every block-level edit)",
+  "All stores of a grid (first instance, length, delta patterns, checkpoint frequency 3 plus one 1445-certificate store at the production frequency) are exported at every end point and re-imported: the imported store must be observationally identical and the digest must be the blake2b-256 of the bytes; every byte truncation, dropped/duplicated/swapped/surplus block, header or manifest disagreement and altered (also compensated) delta must be rejected without panic.",
+  "in-memory datastores; snapshots from the repository's exporter", "DESIGN §3 C17"),
 }
 
 ALL = ["C%02d" % i for i in range(1, 21)]
